@@ -25,7 +25,7 @@ try:
     txt = open(os.path.join(dest, "demo.py")).read()
     import re
     local_demo = os.path.join(scratch, "demo.py")
-    open(local_demo, "w").write(re.sub(r"/tmp/seed2?_C\d+[a-z]?", dst, txt))
+    open(local_demo, "w").write(re.sub(r"/tmp/seed\d?_C\d+[a-z]?", dst, txt))
     env = dict(os.environ, PYTHONPATH=os.path.join(dst, "src"), MPLBACKEND="Agg")
     def run_demo():
         p = subprocess.run(["/venv/bin/python", local_demo], cwd=dst, env=env, capture_output=True, text=True, timeout=900)
